@@ -8,6 +8,8 @@
 (*   probe  a isn idx hasx all getnb key                                              *)
 (*          isn  = IsNeighborInEpoch(a,b) for b in -1..V                              *)
 (*          idx  = NeighborIndicesInEpoch(a)                                          *)
+(*          held = the list obtained for a BEFORE all other calls on the same mapper,  *)
+(*                 re-read after them (a returned list must not change afterwards)     *)
 (*          all  = ids of AllNeighborValidators(a); getnb = ValidatorManager.GetNeighbors *)
 (*          key  = ValidatorManager{SelfIndex a}.IsNeighbor(key id) for id in kq      *)
 (*          (all/getnb/key only when 0 <= a < V: hasx = 1)                            *)
@@ -49,6 +51,7 @@ JudgeProbe(e) ==
   IN IF e.panic = 1 THEN {"panic:probe"}
      ELSE Why(e.isn # [j \in 1..(V + 2) |-> Bool((j - 2) \in nb)], "IsNeighborInEpoch_wrong")
           \cup Why(ToSet(e.idx) # nb, "NeighborIndicesInEpoch_wrong")
+          \cup Why(ToSet(e.held) # nb \/ Len(e.held) # Len(e.idx), "NeighborIndicesInEpoch_result_changed_by_later_calls")
           \cup (IF e.hasx = 1 THEN
                   LET self == cfg.cur[a + 1]
                       nk == NbrKeys(cfg.cur, cfg.prev, cfg.next, a) \ {self}
